@@ -725,6 +725,36 @@ impl GenericSecurityService for NTLMv2SecurityInterface {
     }
 }
 
+/// Verification hooks: read-only access to the private primitives of this file and to the
+/// two private fields a test driver has to set. Compiled only with `--cfg rdp_rs_verif`.
+#[cfg(rdp_rs_verif)]
+pub mod verif {
+    use nla::rc4::Rc4;
+    pub fn md4(data: &[u8]) -> Vec<u8> { super::md4(data) }
+    pub fn md5(data: &[u8]) -> Vec<u8> { super::md5(data) }
+    pub fn hmac_md5(key: &[u8], data: &[u8]) -> Vec<u8> { super::hmac_md5(key, data) }
+    pub fn rc4k(key: &[u8], plaintext: &[u8]) -> Vec<u8> { super::rc4k(key, plaintext) }
+    pub fn sign_key(exported_session_key: &[u8], is_client: bool) -> Vec<u8> { super::sign_key(exported_session_key, is_client) }
+    pub fn seal_key(exported_session_key: &[u8], is_client: bool) -> Vec<u8> { super::seal_key(exported_session_key, is_client) }
+    pub fn mac(rc4_handle: &mut Rc4, signing_key: &[u8], seq_num: u32, data: &[u8]) -> Vec<u8> { super::mac(rc4_handle, signing_key, seq_num, data) }
+}
+
+#[cfg(rdp_rs_verif)]
+impl Ntlm {
+    /// Fix the exported session key (normally random) before `build_security_interface`
+    pub fn verif_set_exported_session_key(&mut self, key: &[u8]) {
+        self.exported_session_key = Some(key.to_vec());
+    }
+}
+
+#[cfg(rdp_rs_verif)]
+impl NTLMv2SecurityInterface {
+    /// Set the send sequence number (normally reached by sealing that many messages)
+    pub fn verif_set_seq_num(&mut self, seq_num: u32) {
+        self.seq_num = seq_num;
+    }
+}
+
 #[cfg(test)]
 mod test {
     use super::*;
